@@ -20,7 +20,7 @@ func run(c *core.Ctx) {
 	slog.SetDefault(slog.New(slog.NewTextHandler(io.Discard, &slog.HandlerOptions{Level: slog.LevelError})))
 	c.Assume("AES-GCM and SHA-256 of the Go standard library are correct; cryptography is symbolic in the model (a requester holds the session key, another key, or none)")
 	c.Assume("virtual time: the model's clock is bound to real cache entries by Store-ing a replacement entry (same id, key, policy, lease, tag) with an expiry in the past / far future; no time.Now() call is intercepted")
-	c.Assume("sessions are established by real handshakes (CLAIMTOBE or no authentication; AES or no common cipher); storeSession files them in the process-global cache, from which the harness moves the entry into the server's own SessionCache")
+	c.Assume("sessions are established by real handshakes (CLAIMTOBE or no authentication; AES or no common cipher); storeSession files them in the process-global cache; three placements are exercised: the harness moves the entry into the server's own SessionCache, or leaves it in the global cache with the server configured with its own (empty) SessionCache (global fallback) or with none; session ids are unique, so parallel scenarios do not see each other's entries")
 	if sessreal.ReplayFile(c, "C06") {
 		return
 	}
@@ -57,6 +57,7 @@ func run(c *core.Ctx) {
 	rng := c.Rand("c06")
 	var jobs []sessreal.Job
 	classes := map[string]int{}
+	placed := 0
 	for si, sc := range scs {
 		if si%997 == 0 {
 			c.Sample(sc.H[len(sc.H)-1].Step)
@@ -96,11 +97,27 @@ func run(c *core.Ctx) {
 				}
 			}
 		}
+		// cache placement: every behaviour also with the sessions left in the process-
+		// global cache (where storeSession files them), the server configured with its
+		// own SessionCache (resumption goes through the global fallback) or with none
+		for k, pl := range []string{"fallback", "global"} {
+			r := reqs[(si+k)%len(reqs)]
+			if c.Thorough() {
+				for _, r := range reqs {
+					jobs = append(jobs, sessreal.Job{Kind: "C06", Sc: sc, V06: sessreal.Variant06{Requester: r, OneOffPos: pos[0], CutFrac: fracs[0], Placement: pl}})
+					placed++
+				}
+				continue
+			}
+			jobs = append(jobs, sessreal.Job{Kind: "C06", Sc: sc, V06: sessreal.Variant06{Requester: r, OneOffPos: pos[len(pos)-1], CutFrac: fracs[len(fracs)-1], Placement: pl}})
+			placed++
+		}
 	}
 	var t sessreal.Totals
 	sessreal.ReplayAll(c, jobs, &t)
 	c.Set("abstract_behaviours", len(scs))
 	c.Set("attack_classes", classes)
+	c.Set("cache_placement_executions", placed)
 	c.Set("real_full_handshakes", t.S06.RealHandshakes)
 	c.Set("real_resumption_attempts", t.S06.Resumes)
 	c.Set("real_replays", t.S06.Replays)
@@ -113,5 +130,5 @@ func run(c *core.Ctx) {
 	c.Set("real_client_declined_to_attempt", t.S06.RealDeclined)
 	c.Set("permitted_divergences", t.Diverged)
 	c.Set("exhaustive", true)
-	c.Set("rule", "behaviours = every distinct (cache state, step) reachable by life-cycle sequences (Establish keyed/key-less x authenticated/anonymous, Tick, Renew, Invalidate, Sweep, legitimate Resume) of bounded length, each followed by every attacking connection (id exact/one-off/unknown x key/wrong key/no key x reply requested or not x same/other address; replay of either recorded direction whole or cut), enumerated by TLC from Gen_SessionCache (mode C06, VIEW without history); each is executed against a real ServerHandshake on a real SessionCache populated by real handshakes, with cedar's own client code (doctored cache entry) and with hand-built frames; abstract classes (which character differs, where a cut falls) expand to concrete members (several in thorough, seeded in quick); non-trivial = more than one step")
+	c.Set("rule", "behaviours = every distinct (cache state, step) reachable by life-cycle sequences (Establish keyed/key-less x authenticated/anonymous, Tick, Renew, Invalidate, Sweep, legitimate Resume) of bounded length, each followed by every attacking connection (id exact/one-off/unknown x key/wrong key/no key x reply requested or not x same/other address; replay of either recorded direction whole or cut), enumerated by TLC from Gen_SessionCache (mode C06, VIEW without history); each is executed against a real ServerHandshake on a real SessionCache populated by real handshakes (three cache placements: own cache, global cache through the fallback, global cache only), with cedar's own client code (doctored cache entry) and with hand-built frames; abstract classes (which character differs, where a cut falls) expand to concrete members (several in thorough, seeded in quick); non-trivial = more than one step")
 }
